@@ -5,7 +5,7 @@ import random
 
 KW = {"select", "from", "join", "on", "where", "in", "union", "all", "as", "with", "insert", "into", "create", "table", "view",
       "update", "set", "merge", "using", "when", "matched", "then", "delete", "having", "group", "by", "and", "not", "exists", "inner",
-      "left", "cross"}
+      "left", "cross", "or"}
 
 
 class Opts:
@@ -205,7 +205,10 @@ class R:
             # both sides of one comparison are subqueries
             out += [self.kw("where"), "("] + b["where"] + [")", ">", "("] + b["where2"] + [")"]
         elif b["where"]:
-            if self.o.where_op == "exists":
+            if self.o.where_op == "in_with_bracket":
+                # the IN subquery next to another bracket in the same condition
+                out += [self.kw("where"), "(", self.ident("c1"), "=", "1", self.kw("or"), self.ident("c1"), "=", "2", ")", self.kw("and"), self.ident("c1"), self.kw("in"), "("] + b["where"] + [")"]
+            elif self.o.where_op == "exists":
                 out += [self.kw("where"), self.kw("exists"), "("] + b["where"] + [")"]
             else:
                 out += [self.kw("where"), self.ident("c1"), self.kw("in"), "("] + b["where"] + [")"]
